@@ -87,6 +87,13 @@ var c18Issuers = []struct {
 }{
 	{"idp", samlgen.S(samlgen.IDPEntity), true}, {"other", samlgen.S("https://evil-idp.example.net/metadata"), false}, {"idp-slash", samlgen.S(samlgen.IDPEntity + "/"), false},
 	{"idp-upper", samlgen.S(strings.ToUpper(samlgen.IDPEntity)), false}, {"idp-prefix", samlgen.S(samlgen.IDPEntity[:len(samlgen.IDPEntity)-2]), false}, {"empty", samlgen.S(""), false}, {"absent", nil, false},
+	// an Issuer element with a Format attribute (value, NUL, format): the format changes nothing about who the issuer has to be
+	{"idp+format-entity", samlgen.S(samlgen.IDPEntity + "\x00urn:oasis:names:tc:SAML:2.0:nameid-format:entity"), true},
+	{"other+format-entity", samlgen.S("https://idp.example.com/saml/metadata/other\x00urn:oasis:names:tc:SAML:2.0:nameid-format:entity"), false},
+	{"other+format-unspecified", samlgen.S("https://idp.example.com/saml/metadata/other\x00urn:oasis:names:tc:SAML:1.1:nameid-format:unspecified"), false},
+	{"other+format-persistent", samlgen.S("https://evil-idp.example.net/metadata\x00urn:oasis:names:tc:SAML:2.0:nameid-format:persistent"), false},
+	{"other+format-misspelt-entity", samlgen.S("https://evil-idp.example.net/metadata\x00urn:oasis:names:tc:SAML:2.0:nameid-format:Entity"), false},
+	{"other+format-empty", samlgen.S("https://evil-idp.example.net/metadata\x00"), false},
 }
 
 var c18Sigs = []string{"valid", "valid-no-keyinfo", "absent", "untrusted-key", "lookalike-certificate-key", "encryption-use-key", "edited-after/destination", "edited-after/issuer", "edited-after/status", "edited-after/issueinstant",
@@ -108,7 +115,13 @@ func c18Build(dest, issuer *string, st c18Status, iiOff time.Duration, iiPresent
 		}
 		el.CreateAttr("InResponseTo", "id-logout-request-1")
 		if issuer != nil {
-			el.CreateElement("saml:Issuer").SetText(*issuer)
+			is := el.CreateElement("saml:Issuer")
+			if v, f, ok := strings.Cut(*issuer, "\x00"); ok {
+				is.CreateAttr("Format", f)
+				is.SetText(v)
+			} else {
+				is.SetText(*issuer)
+			}
 		}
 		if !st.noStatus {
 			s := el.CreateElement("samlp:Status")
@@ -203,7 +216,7 @@ func init() {
 	Register(&Check{
 		ID:     "C18",
 		Engine: "lattice",
-		Rule: "full product of Destination (9 values incl. near-misses) x Issuer (7) x Status (7) x IssueInstant (8 positions relative to the process clock, >= 5 s from the freshness boundary) with a valid signature, x {POST form, redirect (deflate)} x tolerance settings x trust configuration {metadata, fingerprint, pinned}; " +
+		Rule: "full product of Destination (9 values incl. near-misses) x Issuer (13, six of them with a Format attribute) x Status (7) x IssueInstant (8 positions relative to the process clock, >= 5 s from the freshness boundary) with a valid signature, x {POST form, redirect (deflate)} x tolerance settings x trust configuration {metadata, fingerprint, pinned}; " +
 			"16 signature treatments (absent, untrusted key, encryption-use key, each field edited after signing, relocated, wrapped in an unsigned response, duplicated, attacker-signed with the trusted certificate appended/first, truncated value, foreign-namespace look-alike) on otherwise valid responses and with one deviating field; dispatch through ValidateLogoutResponseRequest by GET query and POST body. " +
 			"Oracle: nil error iff trusted signature, Destination = SLO URL, fresh, Issuer = IdP, Status Success. non-trivial = all but the single fully valid response",
 		Bounds: func(tier string) string {
